@@ -116,7 +116,7 @@ _port_rnd = random.Random(os.getpid() * 7919 + int(time.time()))
 
 def free_port():
     for _ in range(200):
-        p = _port_rnd.randint(20000, 60000)
+        p = _port_rnd.randint(10000, 32000)   # below the ephemeral range used by the peers' own sockets
         s = socket.socket()
         try:
             s.bind(('127.0.0.1', p))
@@ -208,6 +208,20 @@ class Squid:
 
     # ------------------------------------------------------------------------------------
     def start(self, wait=20.0):
+        for attempt in range(4):
+            try:
+                return self._start(wait)
+            except MachineryError as e:
+                if 'Unable to open HTTP Socket' not in str(e) and 'Address already in use' not in str(e) or attempt == 3:
+                    raise
+                self.kill()
+                newport = free_port()
+                self.conf_text = self.conf_text.replace('127.0.0.1:%d ' % self.port, '127.0.0.1:%d ' % newport)
+                self.port = newport
+                with open(self.conf, 'w') as f:
+                    f.write(self.conf_text)
+
+    def _start(self, wait=20.0):
         chown_r(self.run)
         for f in glob.glob('/dev/shm/squid-%s-*' % self.svc):
             os.unlink(f)
